@@ -39,8 +39,9 @@ def check_site(ctx, rule: str, fn: ast.AST, site: sub.Site, what: str, word_boun
         ok_all = ok_all and ok
         why = []
         if weak and not word_boundary_ok:
-            why.append("the left anchor is only a word boundary: '.', '#' and '-' are legal inside references, so the key also "
-                       "matches inside 'stage1.<key>', '0#<key>' or 'x-<key>' (e.g. inside text inserted by an earlier substitution)")
+            why.append("the left anchor does not exclude all of '.', '#', '/' and word characters, which are legal inside a longer "
+                       "reference: the key also matches inside 'stage1.<key>', '0#<key>', 'data/<key>' (or inside text inserted by an "
+                       "earlier substitution)")
         if not info["escaped_keys"] or info["raw_interpolation"]:
             why.append("the reference text is interpolated into the regular expression without re.escape")
         if not info["left"]:
@@ -55,12 +56,34 @@ def check_site(ctx, rule: str, fn: ast.AST, site: sub.Site, what: str, word_boun
     return ok_all
 
 
+class Registration:
+    """``table.setdefault(<spelling>, <value>)`` / ``table[<spelling>] = <value>``: the plan of a single-pass substitution."""
+
+    def __init__(self, node: ast.AST, table: str, key: ast.AST, value: ast.AST):
+        self.node, self.table, self.key, self.value = node, table, key, value
+
+
+def find_registrations(fn: ast.AST) -> List[Registration]:
+    out: List[Registration] = []
+    for n in source.walk_own(fn):
+        if isinstance(n, ast.Call) and isinstance(n.func, ast.Attribute) and n.func.attr == "setdefault" and len(n.args) == 2 \
+                and isinstance(n.func.value, ast.Name) and key_is_reference_spelling(n.args[0]):
+            out.append(Registration(n, n.func.value.id, n.args[0], n.args[1]))
+        if isinstance(n, ast.Assign) and len(n.targets) == 1 and isinstance(n.targets[0], ast.Subscript) \
+                and isinstance(n.targets[0].value, ast.Name) and key_is_reference_spelling(n.targets[0].slice):
+            out.append(Registration(n, n.targets[0].value.id, n.targets[0].slice, n.value))
+    return out
+
+
 def run(ctx) -> None:
+    from vlib.cfg import CFG, own_calls
     ctx.explanation = (
         "SUB rule on ComponentSpecification.resolveArguments: every content-based substitution whose key is a reference "
-        "spelling must go through an escaped, boundary-anchored pattern (then the loop over the declared references is "
-        "order independent); the replacement must be the value resolved from the same reference; the argument string is "
-        "modified nowhere else. Decides the structural necessary condition, not equality with an oracle substitution.")
+        "spelling goes through an escaped, strongly anchored pattern; the replacement is the value resolved from the same "
+        "reference and is inserted verbatim (through a callable); the stage-less relative spelling is used only when the "
+        "absolute one is absent; inserted values are never rescanned for other references (single pass outside the loop "
+        "over the references); the argument string is modified nowhere else. Decides these structural necessary "
+        "conditions, not equality with an oracle substitution.")
     ctx.rule("C10.R1-anchored-substitution", "every substitution of a reference spelling in resolveArguments is escaped and boundary-anchored")
     ctx.rule("C10.R2-own-value", "each reference is replaced by the value resolved from that same reference")
     ctx.rule("C10.R3-only-substitutions-touch-arguments", "the argument string is assigned only from substitutions of declared "
@@ -68,13 +91,26 @@ def run(ctx) -> None:
     ctx.rule("C10.R4-one-spelling-per-reference", "the relative spelling (which carries no stage and can be shared by same-named "
              "producers of different stages) is substituted only on paths where this reference's absolute spelling was not "
              "found in the arguments")
-    ctx.assume("\\b / look-around anchors are accepted as boundaries (the idiom of rewrite_all_references and "
-               "_compute_memoization_info)")
+    ctx.rule("C10.R5-verbatim-insertion", "the value is inserted verbatim: a regex substitution receives it through a callable (or "
+             "with its backslashes escaped), never as a replacement *template* in which \\1, \\g<0>, \\n are interpreted")
+    ctx.rule("C10.R6-no-rescan", "text inserted for one reference is never scanned for the other references: the string that is "
+             "searched/rewritten is not modified inside the loop over the references (substitution in one pass)")
+    ctx.assume("look-around anchors with a class containing \\w . # / are accepted as strong boundaries")
 
     g = ctx.repo.module(GRAPH)
     fn = g.func("ComponentSpecification.resolveArguments")
     ctx.analysed(fn)
+    cfg = CFG(fn)
+    ctx.paths += cfg.paths_count()
+    loops = [n for n in source.walk_own(fn) if isinstance(n, ast.For) and "dataReferences" in source.src(n.iter)]
+    ctx.require(bool(loops), "anchor missing: loop over self.dataReferences in resolveArguments")
+    loop = loops[0]
+    loopvar = loop.target.id if isinstance(loop.target, ast.Name) else None
+
+    regs = find_registrations(fn)
+    tables = {r.table for r in regs}
     sites = [s for s in sub.find_sites(fn) if not sub.is_literal_key(s)]
+
     def regex_keys(s):
         out = []
         for (p, pfn, binds) in sub.resolve_pattern(fn, s.pattern):
@@ -82,63 +118,138 @@ def run(ctx) -> None:
             out.extend(binds.values())
             out.append(p)
         return out
+
+    def is_table(k) -> bool:
+        """the spelling table itself, or a variable iterating over its keys"""
+        if not isinstance(k, ast.Name):
+            return False
+        if k.id in tables:
+            return True
+        for lp in source.walk_own(fn):
+            if isinstance(lp, ast.For):
+                tg = lp.target.elts[0] if isinstance(lp.target, ast.Tuple) and lp.target.elts else lp.target
+                if isinstance(tg, ast.Name) and tg.id == k.id and any(isinstance(x, ast.Name) and x.id in tables for x in ast.walk(lp.iter)):
+                    return True
+        return False
     ref_sites = [s for s in sites if key_is_reference_spelling(s.key if s.kind == "plain" else None) or
-                 (s.kind == "regex" and any(key_is_reference_spelling(k) for k in regex_keys(s)))]
-    ctx.floor("C10.R1-anchored-substitution", len(ref_sites), 2, "reference substitutions in resolveArguments")
+                 (s.kind == "regex" and any(key_is_reference_spelling(k) or is_table(k) for k in regex_keys(s)))]
+    table_sites = [s for s in ref_sites if s.kind == "regex" and any(is_table(k) for k in regex_keys(s))]
+    legacy_sites = [s for s in ref_sites if s not in table_sites]
+    ctx.floor("C10.R1-anchored-substitution", len(ref_sites), 1, "reference substitutions in resolveArguments")
+    ctx.floor("C10.R2-own-value", len(regs) + len(legacy_sites), 2, "registrations / substitutions of a reference's value")
 
-    loops = [n for n in source.walk_own(fn) if isinstance(n, ast.For) and "dataReferences" in source.src(n.iter)]
-    ctx.require(bool(loops), "anchor missing: loop over self.dataReferences in resolveArguments")
-    loop = loops[0]
-    loopvar = loop.target.id if isinstance(loop.target, ast.Name) else None
+    def in_loop(node: ast.AST) -> bool:
+        return any(node is x for x in ast.walk(loop))
 
+    def value_is_own(v: ast.AST) -> bool:
+        """v is (a local bound to) reference_value = <loop reference>.resolve(...)"""
+        if isinstance(v, ast.Lambda):
+            v = v.body
+        if not isinstance(v, ast.Name):
+            return False
+        names = {v.id}
+        for x in match.assigned_value(fn, v.id):
+            if isinstance(x, ast.Name):
+                names.add(x.id)
+        if "reference_value" not in names:
+            return False
+        rv = match.assigned_value(fn, "reference_value")
+        return any(isinstance(x, ast.Call) and last_attr(x) == "resolve" and dotted(x.func.value) == loopvar for x in rv)
+
+    def key_root_is_loopvar(k: Optional[ast.AST]) -> bool:
+        root = k
+        while isinstance(root, ast.Attribute):
+            root = root.value
+        return isinstance(root, ast.Name) and root.id == loopvar
+
+    # ---------------- R1 -------------------------------------------------------------------------------
     for s in ref_sites:
         check_site(ctx, "C10.R1-anchored-substitution", fn, s, "a declared reference")
-        # R2
+
+    # ---------------- R2 -------------------------------------------------------------------------------
+    for r in regs:
+        ok = in_loop(r.node) and key_root_is_loopvar(r.key) and value_is_own(r.value)
+        ctx.ob("C10.R2-own-value", r.node, ok,
+               "the spelling of the loop's reference is registered with that reference's resolved value" if ok else
+               "a spelling is registered with something other than the value resolved from the same reference",
+               construct=short(r.node, 110) + " <- own value")
+    for s in table_sites:
+        v = s.value
+        body = v.body if isinstance(v, ast.Lambda) else None
+        ok = isinstance(body, ast.Subscript) and isinstance(body.value, ast.Name) and body.value.id in tables \
+            and isinstance(body.slice, ast.Call) and last_attr(body.slice) == "group" and isinstance(v, ast.Lambda) \
+            and v.args.args and dotted(body.slice.func.value) == v.args.args[0].arg \
+            and (not body.slice.args or (isinstance(body.slice.args[0], ast.Constant) and body.slice.args[0].value == 0))
+        ctx.ob("C10.R2-own-value", s.call, ok,
+               "the single pass replaces each matched spelling by the value registered for exactly that spelling" if ok else
+               "the single-pass substitution does not look the value up by the matched spelling (table[m.group(0)])",
+               construct=short(s.call, 110) + " <- value of the matched spelling")
+    for s in legacy_sites:
         keyexpr = s.key if s.kind == "plain" else None
         if keyexpr is None:
             cands = [k for k in regex_keys(s) if key_is_reference_spelling(k)]
             keyexpr = cands[0] if cands else None
-        root = keyexpr
-        while isinstance(root, ast.Attribute):
-            root = root.value
-        key_ok = isinstance(root, ast.Name) and root.id == loopvar
-        val = s.value
-        if isinstance(val, ast.Lambda):
-            val = val.body
-        val_ok = False
-        if isinstance(val, ast.Name):
-            names = {val.id}
-            for v in match.assigned_value(fn, val.id):
-                if isinstance(v, ast.Name):
-                    names.add(v.id)
-            if "reference_value" in names:
-                rv = match.assigned_value(fn, "reference_value")
-                val_ok = any(isinstance(v, ast.Call) and last_attr(v) == "resolve" and dotted(v.func.value) == loopvar
-                             for v in rv)
-        ctx.ob("C10.R2-own-value", s.call, key_ok and val_ok,
-               "the key is a spelling of the loop's reference and the replacement is that reference's resolved value"
-               if key_ok and val_ok else
+        ok = key_root_is_loopvar(keyexpr) and value_is_own(s.value)
+        ctx.ob("C10.R2-own-value", s.call, ok,
+               "the key is a spelling of the loop's reference and the replacement is that reference's resolved value" if ok else
                "the replacement is not (provably) the value resolved from the reference whose spelling is replaced",
                construct=short(s.call, 120) + " <- own value")
-    # R3: who assigns `arguments`
-    for n in source.walk_own(fn):
-        if isinstance(n, ast.Assign) and any(isinstance(t, ast.Name) and t.id == "arguments" for t in n.targets):
-            v = n.value
-            is_site = any(v is s.call for s in sites)
-            is_init = isinstance(v, ast.Call) and last_attr(v) == "get" and v.args and isinstance(v.args[0], ast.Constant) \
-                and v.args[0].value == "arguments"
-            is_fill = isinstance(v, ast.Call) and last_attr(v) == "fill_in"
-            ok = is_site or is_init or is_fill
-            ctx.ob("C10.R3-only-substitutions-touch-arguments", n, ok,
-                   "arguments assigned from %s" % ("a reference substitution" if is_site else "its initial value" if is_init else "fill_in")
-                   if ok else "the argument string is rewritten by something other than a reference substitution",
-                   trivial=not is_site)
 
-    # R4: relative spelling only when the absolute one is absent
-    from vlib.cfg import CFG, own_calls
+    # ---------------- R5 -------------------------------------------------------------------------------
+    def verbatim(e: ast.AST) -> bool:
+        if isinstance(e, ast.Lambda):
+            return True
+        if isinstance(e, ast.Name) and any(isinstance(d, ast.FunctionDef) and d.name == e.id for d in ast.walk(fn)):
+            return True
+        if isinstance(e, ast.Constant) and isinstance(e.value, str) and "\\" not in e.value:
+            return True
+        if isinstance(e, ast.Call) and isinstance(e.func, ast.Attribute) and e.func.attr == "replace" and len(e.args) == 2 \
+                and isinstance(e.args[0], ast.Constant) and e.args[0].value == "\\" \
+                and isinstance(e.args[1], ast.Constant) and e.args[1].value == "\\\\":
+            return True
+        return False
+    for s in ref_sites:
+        if s.kind != "regex":
+            continue
+        v = s.value
+        vals = [v]
+        if isinstance(v, ast.Name):
+            vals = match.assigned_value(fn, v.id) or [v]
+        ok = all(verbatim(x) for x in vals)
+        ctx.ob("C10.R5-verbatim-insertion", s.call, ok,
+               "the reference's value reaches re.sub through a callable: it is inserted as is" if ok else
+               "the reference's value is passed to re.sub as a replacement template (%s): backslashes in a path or in the contents "
+               "of an :output file are interpreted ('\\n' becomes a newline, '\\1' a group reference, 'C:\\data' raises re.error) "
+               "instead of being inserted verbatim" % short(v, 40), construct=short(s.call, 100) + " <- verbatim")
 
+    # ---------------- R3 / R6 --------------------------------------------------------------------------
+    arg_assigns = [n for n in source.walk_own(fn) if isinstance(n, ast.Assign)
+                   and any(isinstance(t, ast.Name) and t.id == "arguments" for t in n.targets)]
+    for n in arg_assigns:
+        v = n.value
+        is_site = any(v is s.call for s in sites)
+        is_init = isinstance(v, ast.Call) and last_attr(v) == "get" and v.args and isinstance(v.args[0], ast.Constant) \
+            and v.args[0].value == "arguments"
+        is_fill = isinstance(v, ast.Call) and last_attr(v) == "fill_in"
+        ok = is_site or is_init or is_fill
+        ctx.ob("C10.R3-only-substitutions-touch-arguments", n, ok,
+               "arguments assigned from %s" % ("a reference substitution" if is_site else "its initial value" if is_init else "fill_in")
+               if ok else "the argument string is rewritten by something other than a reference substitution",
+               trivial=not is_site)
+        if is_site:
+            inside = in_loop(n)
+            ctx.ob("C10.R6-no-rescan", n, not inside,
+                   "the references are substituted in one pass after the loop over the references" if not inside else
+                   "the argument string is rewritten inside the loop over the references: the text inserted for one reference (the "
+                   "contents of an :output file, a path) is searched again for the references processed later - "
+                   "references [A/note.txt:output, B:ref] with note.txt containing 'see B:ref' give a different result than "
+                   "[B:ref, A/note.txt:output]", construct=short(n, 90) + " <- outside the reference loop")
+    n_site_assign = sum(1 for n in arg_assigns if any(n.value is s.call for s in sites))
+    ctx.floor("C10.R6-no-rescan", n_site_assign, 1, "assignments of the argument string from a reference substitution")
+
+    # ---------------- R4 -------------------------------------------------------------------------------
     def spelling_of(e: ast.AST, depth: int = 0) -> Optional[str]:
-        """'absolute' / 'relative' when the pattern expression e is built from that spelling of the loop's reference."""
+        """'absolute' / 'relative' when the expression e is built from that spelling of the loop's reference."""
         if e is None or depth > 4:
             return None
         for n in ast.walk(e):
@@ -172,28 +283,26 @@ def run(ctx) -> None:
             return "T"
         return None
 
-    cfg = CFG(fn)
-    ctx.paths += cfg.paths_count()
     abs_tests = match.test_nodes(cfg, lambda t: found_label(t, "absolute"))
-    rel_sites = [s for s in ref_sites if spelling_of(s.pattern if s.kind == "regex" else s.key) == "relative"]
-    abs_sites = [s for s in ref_sites if spelling_of(s.pattern if s.kind == "regex" else s.key) == "absolute"]
-    ctx.floor("C10.R4-one-spelling-per-reference", len(rel_sites), 2, "substitutions of the relative spelling in resolveArguments")
-    for s in rel_sites:
-        nodes = [n for n in cfg.nodes if n.ast is not None and n.kind in ("stmt", "test") and any(c is s.call for c in own_calls(n.ast))]
-        ctx.require(bool(nodes), "cannot locate the CFG node of %s" % short(s.call, 60))
-        absent = [(n, match.other(l)) for n, l in abs_tests]
+    rel_uses: List[ast.AST] = [r.node for r in regs if spelling_of(r.key) == "relative"]
+    rel_uses += [s.call for s in legacy_sites if spelling_of(s.pattern if s.kind == "regex" else s.key) == "relative"]
+    ctx.floor("C10.R4-one-spelling-per-reference", len(rel_uses), 2, "uses of the relative spelling (registrations / substitutions)")
+    absent = [(n, match.other(l)) for n, l in abs_tests]
+    for u in rel_uses:
+        nodes = [n for n in cfg.nodes if n.ast is not None and n.kind in ("stmt", "test")
+                 and (n.ast is u or any(c is u for c in own_calls(n.ast)))]
+        ctx.require(bool(nodes), "cannot locate the CFG node of %s" % short(u, 60))
         ok = bool(abs_tests) and all(match.only_via_edges(cfg, n, absent) for n in nodes)
-        # accepted alternative guard: an explicit stage comparison on the producer
         if not ok:
             stage_tests = match.test_nodes(cfg, lambda t: "T" if (isinstance(t, ast.Compare) and "stageIndex" in source.src(t)
                                                                    and isinstance(t.ops[0], ast.Eq)) else None)
             ok = bool(stage_tests) and all(match.only_via_edges(cfg, n, stage_tests) for n in nodes)
-        ctx.ob("C10.R4-one-spelling-per-reference", s.call, ok,
-               "the relative spelling is substituted only when this reference's absolute spelling does not occur in the arguments" if ok else
+        ctx.ob("C10.R4-one-spelling-per-reference", u, ok,
+               "the relative spelling is used only when this reference's absolute spelling does not occur in the arguments" if ok else
                "the relative spelling is substituted also when the reference's absolute spelling was found: 'A:ref' is shared by "
                "stage0.A and stage1.A, so with references [stage0.A:ref, stage1.A:ref] and arguments '-a stage0.A:ref -b A:ref' "
                "the occurrence that belongs to stage1.A gets stage0.A's value (declaration-order dependent)",
-               construct=short(s.call, 100) + " <- absolute spelling absent")
+               construct=short(u, 100) + " <- absolute spelling absent")
 
     if ctx.tier == "thorough":
         # information only: the same idiom elsewhere in the repository (outside the property's scope)
